@@ -36,7 +36,7 @@ def add_case(out, cases, case, res, kind):
     edges = sum(len(t['task_dep']) + len(t['setup']) + len(t['calc_dep']) for t in case['tasks'])
     if edges >= 1 and any(ev[0] in (5, 20) for ev in res['events']):
         out.nontrivial.add((kind, case['flavour'], case['k'], tuple(res['trace'])))
-    bad = runlib.check_dep_order(res['events'], res['real_deps'], case['flavour'])
+    bad = runlib.check_dep_order(res['events'], res['real_deps'], case['flavour'], case)
     if bad:
         out.violations.append(dict(
             what='task %s started before its dependencies %s finished (%s runner)' % (bad[0]['task'], bad[0]['unfinished_deps'], case['flavour']),
